@@ -156,6 +156,15 @@ KF_C03_5_Edge(X, e) ==
          /\ \/ /\ r.op = "rep"
                /\ \E j \in DOMAIN b.units : b.units[j].k = "call" /\ r.off <= b.units[j].o /\ b.units[j].o < r.off + r.len
             \/ r.off = b.n /\ LastKind(b) = "call"     \* inserted right after a call: its return site moves
+            \* another request of the batch deletes / replaces a call to the function the ret is in
+            \/ /\ x.fn # <<>>
+               /\ \E q \in Range(X.t.reqs) :
+                     /\ q.op \in {"del", "rep"}
+                     /\ LET cb == BlockByU(X.t.pre, q.u)
+                        IN  \E j \in DOMAIN cb.units :
+                               /\ cb.units[j].k = "call" /\ q.off <= cb.units[j].o /\ cb.units[j].o < q.off + q.len
+                               /\ \E tb \in Range(AllBlocks(X.t.pre)) :
+                                     cb.units[j].tg \in Range(tb.ss) /\ x.fn[1] \in Range(tb.fn)
 
 \* KF-C03-7: return edges do not follow a call whose target block is deleted
 \* (the call slides to the next block or goes to the proxy, the returns stay).
